@@ -21,8 +21,26 @@ pub struct Entry {
     boxed: fn(u128) -> Box<dyn AllFmt>,
 }
 
+/// The overflow error is recognised by comparing with a reference error obtained from the library itself
+/// (ParseFixedError is PartialEq but has no public kind accessor); only if that calibration is impossible the
+/// message text is used.
+fn overflow_reference() -> Option<ParseFixedError> {
+    static R: std::sync::OnceLock<Option<ParseFixedError>> = std::sync::OnceLock::new();
+    *R.get_or_init(|| {
+        let ov = subject(|| "99999999999999999999999999999999999999999999999999".parse::<substrate_fixed::types::U8F0>()).and_then(|r| r.err());
+        let other = subject(|| "x".parse::<substrate_fixed::types::U8F0>()).and_then(|r| r.err());
+        match (ov, other) {
+            (Some(a), Some(b)) if a != b => Some(a),
+            _ => None,
+        }
+    })
+}
 fn err_code(e: substrate_fixed::ParseFixedError) -> Out {
-    if e.to_string() == "overflow" {
+    let is_overflow = match overflow_reference() {
+        Some(r) => e == r,
+        None => e.to_string() == "overflow",
+    };
+    if is_overflow {
         Out::E(0)
     } else {
         Out::E(1)
